@@ -114,6 +114,18 @@ class C19Bounded(Bounded):
         wantg = {("IdentifierCollisionIssue", ("r1", "r2")), ("DuplicateTitleIssue", ("r1", "r2", "r3"))}
         if groups != wantg:
             fail("groups", f"uniqueness issues name the groups {sorted(groups)}, expected {sorted(wantg)}", [])
+        # one validator object fed in two rounds: after the second round the uniqueness groups are the groups over every rule it was given
+        # (an id / title seen once in the first round and again in the second is a collision)
+        for split in (1, 2, 4):
+            ev += 1
+            nontriv += 1
+            rules = [SigmaRule.from_dict(rule_doc(*r)) for r in RULES]
+            v2 = SigmaValidator([validators[n] for n in names])
+            v2.validate_rules(iter(rules[:split]))
+            second = v2.validate_rules(iter(rules[split:]))
+            g2 = {(issue_key(i)[0], issue_key(i)[1]) for i in second if type(i).__name__ in ("IdentifierCollisionIssue", "DuplicateTitleIssue")}
+            if g2 != wantg:
+                fail("two-rounds", f"rules given to one validator in two rounds (first {split}, then the rest): uniqueness groups after the second round {sorted(g2)}, over all rules {sorted(wantg)}", [split])
         # exclusions suppress exactly the excluded validator for the excluded rule id
         ev += 1
         rules = [SigmaRule.from_dict(rule_doc(*r)) for r in RULES]
